@@ -17,8 +17,10 @@ CONSTANTS
   ModernUnsub = TRUE
   Stepwise = TRUE
   Gates = FALSE
+  GateNames = {"inv", "usr", "put"}
   ClientFirst = FALSE
   MinSteps = 1
   MaxSteps = 8
+  Bias = FALSE
 INVARIANTS LeadNeverLost
 CHECK_DEADLOCK FALSE
